@@ -5915,9 +5915,11 @@ class PyCdlib:
         if signature != b'\xfb\xc0\x78\x70':
             raise pycdlibexception.PyCdlibInvalidInput('Invalid signature on boot file for iso hybrid')
 
-        self.isohybrid_mbr = isohybrid.IsoHybrid()
-        self.isohybrid_mbr.new(efi, mac, part_entry, mbr_id, part_offset,
-                               geometry_sectors, geometry_heads, part_type)
+        # Only keep the new object once its parameters were accepted.
+        isohybrid_mbr = isohybrid.IsoHybrid()
+        isohybrid_mbr.new(efi, mac, part_entry, mbr_id, part_offset,
+                          geometry_sectors, geometry_heads, part_type)
+        self.isohybrid_mbr = isohybrid_mbr
 
         # The boot file address in the MBR and the GPT/APM partitions are
         # filled in when the extents are assigned, so make sure that happens
